@@ -380,6 +380,18 @@ def main(out_path: str):
         dict_ss("smartQuotes", x2j.SMART_QUOTES, "xls2json.SMART_QUOTES"),
         str_c("reWhitespace", xls2json_backends.RE_WHITESPACE.pattern, "xls2json_backends.RE_WHITESPACE"),
     ]
+    # ---- C04 controls (Pyxv.Controls): control classes per tag, constants used by the parameter blocks
+    from pyxform import builder as _bld
+    from pyxform.question import Question as _Q
+
+    parts.append(
+        "/-- builder.QUESTION_CLASSES: control tag ↦ (class name, overrides Question.build_xml) -/\n"
+        "def questionClasses : List (String × String × Bool) := "
+        + lst(f"({q(k)}, {q(v.__name__)}, {'true' if v.build_xml is not _Q.build_xml else 'false'})" for k, v in _bld.QUESTION_CLASSES.items())
+    )
+    parts.append(dict_ss("c04Consts", {n: getattr(constants, n) for n in (
+        "AUDIO_QUALITY_VOICE_ONLY", "AUDIO_QUALITY_LOW", "AUDIO_QUALITY_NORMAL", "AUDIO_QUALITY_EXTERNAL",
+        "FIELD_LIST", "TABLE_LIST", "LIST_NOLABEL")}, "constants used by the parameter / appearance blocks of workbook_to_json"))
     parts.append("end Pyxv.Gen\n")
     # several slices may ask for the same table: keep the first definition of each name
     seen, uniq = set(), []
